@@ -24,13 +24,17 @@ def run(chk, rng, replay=None):
     seeds = [replay["seed"]] if replay is not None and "seed" in replay else [int(rng.integers(1 << 30)) for _ in range(want)]
     reqs, keep = [], []
     scales = {}
+    crashes = []
     moved = 0
     for sd in seeds:
         r = np.random.default_rng(sd)
         n = int(r.integers(1, 5 if chk.tier == "thorough" else 4))
         npt = int(r.integers(n + 1, (n + 1) * (n + 2) // 2 + 1))
         h = algrun.history(r, n, npt, 0, 0, int(r.integers(0, 8)))
-        if h is None or "crash" in h:
+        if h is not None and "crash" in h:
+            crashes.append((sd, h["crash"]))
+            continue
+        if h is None:
             continue
         models = h["models"]
         I = models.interpolation
@@ -71,6 +75,8 @@ def run(chk, rng, replay=None):
         keep.append({"seed": sd, "n": n, "npt": npt, "k": k, "one": s_one, "all": s_all, "cond": algrun.cond_of_fresh(models), "brute": brute})
     answers = exact.driver_alg(reqs) if reqs else []
     specfail, mism = [], []
+    for sd_, what_ in crashes[:3]:
+        specfail.append(({"seed": sd_}, "a valid operation on the models raised: " + what_))
     worst = 0.0
     for c, a in zip(keep, answers):
         if not a.startswith("ok"):
@@ -99,7 +105,7 @@ def run(chk, rng, replay=None):
     chk.assumptions += ["theorem is exact; the implementation is compared with allowance 1e4 * eps * cond * scale",
                         "inverse of the interpolation system computed by the harness, verified exactly by the Lean driver"]
     for c, what in specfail[:5]:
-        chk.violation({"property": "C14", "kind": "spec-fails-on-implementation", "seed": c["seed"], "n": c["n"], "npt": c["npt"], "k": c["k"], "failure": what,
+        chk.violation({"property": "C14", "kind": "spec-fails-on-implementation", "seed": c["seed"], "n": c.get("n"), "npt": c.get("npt"), "k": c.get("k"), "failure": what,
                        "explain": "harness/props/c14.py: the case is regenerated from the seed (algrun.history on a real Models object, candidate point, index)",
                        "signature": {"failure": what.split("(")[0]}})
     if not specfail and (not ok or mism):
